@@ -619,9 +619,11 @@ class Dict(dict, base.Symbolic, pg_typing.CustomTyping):
       # this tree and must not alias the default held by the value spec.
       value = copy.deepcopy(field.default_value)
     else:
+      # Containers created for `value` keep this container's own partial mode
+      # (an enclosing `pg.allow_partial` scope only affects the validation).
       value = base.from_json(
           value,
-          allow_partial=allow_partial,
+          allow_partial=self._allow_partial,
           root_path=utils.KeyPath(name, self.sym_path),
       )
     if field and flags.is_type_check_enabled():
